@@ -213,6 +213,8 @@ def run_e2e(ctx):
     for c in ms:
         c.fam = "min-sized/" + c.fam
     cases = cases + ms
+    from vlib.overlay import overlay_cases
+    cases = cases + overlay_cases("bound", "c05")
     run_cases(ctx, cases, "c05e")
     evaluate(ctx, cases, classes, {"bound": "invalid", "number-valid": "valid", "optional-absent": "by-spec", "null-allowed": "valid", "valid": "valid"},
              "numeric bounds")
